@@ -322,7 +322,7 @@ def arcovar(x, order):
     # Estimate the input white noise variance
     Cz = np.dot(X1.conj().transpose(), Xc)
     e = np.dot(X1.conj().transpose(), X1) + np.dot(Cz, a)
-    assert e.imag < 1e-4, 'wierd behaviour'
+    assert abs(e.imag) < 1e-4 * max(1., abs(e.real)), 'wierd behaviour'
     e = float(e.real) # ignore imag part that should be small
 
     return a, e
